@@ -111,6 +111,10 @@ impl Connection {
                 // (it can be already in the buffer)
                 Err(Error::UnknownId(_)) => {
                     let len = crs.position() as usize;
+                    // Wait for the rest of the unknown message
+                    if len > self.buffer.len() {
+                        return Ok(None);
+                    }
                     self.buffer.advance(len);
                 }
                 // Not enough data has been buffered
